@@ -255,6 +255,11 @@ def judge(case: dict[str, Any]) -> Judgement:
                 j.fail("inactive-entry-with-nonzero-weight:objective", op=op, active=ao, weights=wo)
             if ac is not None and np.any(~ac & (wc != 0)):
                 j.fail("inactive-entry-with-nonzero-weight:constraint", op=op, active=ac, weights=wc)
+            if call.active is not None:
+                # the per-realization flag: a realization may only be flagged inactive if ALL its entries have zero weight
+                used = np.any(wo != 0, axis=0) | np.any(wc != 0, axis=0)
+                if np.any(~call.active & used):
+                    j.fail("realization-flagged-inactive-with-nonzero-weight", op=op, active=call.active, objective_weights=wo, constraint_weights=wc)
             if op == "G" and not has_f:
                 # gradient-only evaluation using the function result of the same point: every zero weight is inactive
                 ao_full = np.ones_like(wo, dtype=bool) if ao is None else ao
